@@ -7,6 +7,15 @@
 // code's answer must equal the model's exactly (new widths, returned ratio, expansion factors, row area).
 // The generator of that stream builds dyadic instances (areas q*2^a, targets t/2^c, factors k/16, ...).
 //
+// Correspondence (binary64/binary32-exact, "F" ops): the model Model/ExpandF.lean performs every double/float
+// operation with IEEE rounding, so EVERY call (dyadic or not) is also sent to the driver as rowareaF / todensityF /
+// byfactorF / cellexpF and the answers (row area, all widths, returned ratio, expansion factors) must be equal exactly.
+// Doubles and floats cross the line protocol as "<mantissa> <exp2>".  A call is sent only when a replica of the
+// model's guards holds (conversions to int in range: |fracW| < 2^30, |w * e| < 2^30); counters F_*.  The counters
+// F_*_inexact count the calls in which the replica of the operation sequence sees at least one rounding.  Stream "r"
+// draws full-mantissa targets, margins, caps, factors, penalties and congestion values and odd magnitudes (widths up to 2^28,
+// also for expandCellsByFactor, whose float product is inexact above 2^24).
+//
 // Direct oracle (every instance, exact or not; independent code):
 //   frame        only the widths of movable cells differ between the circuit before and after
 //   not narrower a movable cell whose width does not exceed the cap (toDensity: maxRowWidth*maxExpandedWidth;
@@ -124,6 +133,8 @@ static bool exactByFactor(const Circuit &c, const std::vector<float> &f, double 
   if ((int)f.size() != c.nbCells()) return true;
   for (float e : f) if (e < 0.999f) return true;
   Ex ex;
+  // the repaired width update (max with the old width for factors >= 1) is a no-op in exact arithmetic only for w >= 0
+  for (int i = 0; i < c.nbCells(); ++i) if (!c.cellIsFixed()[i] && c.cellWidth()[i] < 0) ex.ok = false;
   long long cellArea = 0;
   double expanded = 0.0;
   for (int i = 0; i < c.nbCells(); ++i)
@@ -147,6 +158,37 @@ static bool exactByFactor(const Circuit &c, const std::vector<float> &f, double 
   ex.div(ed, density);
   *retExact = ex.ok;
   return widthsOk;
+}
+
+// ---- replicas of the guards of Model/ExpandF.lean (conversions to int in range), with a margin of a factor 2
+static bool domToDensity(const Circuit &c, double target, double margin, double maxExp) {
+  if (!std::isfinite(target) || !std::isfinite(margin) || !std::isfinite(maxExp)) return false;
+  long long cellArea = 0;
+  for (int i = 0; i < c.nbCells(); ++i) if (!c.cellIsFixed()[i]) cellArea += c.area(i);
+  long long rowArea = c.computeRowPlacementArea(margin);
+  if (cellArea == 0 || rowArea == 0) return true;
+  double density = (double)cellArea / (double)rowArea;
+  if (density >= target) return true;
+  int maxRowWidth = 0;
+  for (const Row &r : c.rows()) maxRowWidth = std::max(maxRowWidth, r.width());
+  double cap = maxRowWidth * maxExp, factor = target / density;
+  if (!std::isfinite(factor) || !std::isfinite(cap)) return false;
+  for (int i = 0; i < c.nbCells(); ++i) {
+    if (c.cellIsFixed()[i] || c.cellHeight()[i] <= 0 || c.cellWidth()[i] <= 0) continue;
+    double fracW = c.cellWidth()[i] * factor;
+    if (fracW > cap) fracW = cap;
+    if (!(std::fabs(fracW) < 1073741824.0)) return false;
+  }
+  return true;
+}
+
+static bool domByFactor(const Circuit &c, const std::vector<float> &f, double maxD, double margin) {
+  if (!std::isfinite(maxD) || !std::isfinite(margin)) return false;
+  for (float e : f) if (!std::isfinite(e)) return false;
+  if ((int)f.size() != c.nbCells()) return true;
+  for (int i = 0; i < c.nbCells(); ++i)
+    if (!c.cellIsFixed()[i] && !(std::fabs((double)c.cellWidth()[i]) * std::max(1.0, std::fabs((double)f[i])) < 1073741824.0)) return false;
+  return true;
 }
 
 using Region = std::pair<Rectangle, float>;
@@ -226,6 +268,9 @@ struct Runner {
   explicit Runner(vh::Out &o) : out(o) {}
   // history stream: the input reported with a failure is the whole history, not the single call
   const std::string *inputOverride = nullptr;
+  // send the call to the binary64/binary32-exact model as well?
+  bool emitF = true;
+  long long exactEmitted = 0;  // operations sent to the rational model (replica shows no rounding)
   std::string inputOr(const std::string &dflt) const { return inputOverride ? *inputOverride : dflt; }
 
   void header(const std::string &id, const Circuit &c) {
@@ -249,9 +294,16 @@ struct Runner {
       out.fail(id, "computeRowPlacementArea = " + std::to_string(a) + " but rows minus fixed obstructions minus margins = " + std::to_string((double)av.hi),
                inputOr(vc::circuitString(c) + "margin " + dy(margin)));
     if (ex.ok) {
+      ++exactEmitted;
       out.ops << "rowarea " << dy(margin) << "\n";
       out.impl << "rowarea " << a << "\n";
       out.count("exact_rowarea");
+    }
+    if (emitF && std::isfinite(margin)) {
+      out.ops << "rowareaF " << dy(margin) << "\n";
+      out.impl << "rowareaF " << a << "\n";
+      out.count("F_rowarea");
+      if (!ex.ok) out.count("F_rowarea_inexact (some double operation rounds)");
     }
     return a;
   }
@@ -269,10 +321,20 @@ struct Runner {
     Circuit &c = obj ? *obj : local;
     c.expandCellsToDensity(target, margin, maxExp);
     if (exact) {
+      ++exactEmitted;
       out.ops << "todensity " << dy(target) << " " << dy(margin) << " " << dy(maxExp) << "\n";
       out.impl << widths(c) << "\n";
     }
     out.count(exact ? "todensity_exact" : "todensity_inexact");
+    if (emitF) {
+      if (domToDensity(c0, target, margin, maxExp)) {
+        out.ops << "todensityF " << dy(target) << " " << dy(margin) << " " << dy(maxExp) << "\n";
+        out.impl << widths(c) << " F\n";
+        out.count("F_todensity");
+        if (!exact) out.count("F_todensity_inexact (some double operation rounds)");
+        if (!exact && c.cellWidth() != c0.cellWidth()) out.count("F_todensity_inexact_and_widths_changed");
+      } else out.count("F_todensity_skipped_out_of_domain");
+    }
     // ---- oracle
     std::string fr = frameCheck(c0, c);
     if (!fr.empty()) out.fail(id, "expandCellsToDensity: " + fr, input);
@@ -338,6 +400,7 @@ struct Runner {
     }
     if (outcome) *outcome = threw ? res : "returned " + dy(ret);
     if (exact) {
+      ++exactEmitted;
       out.ops << "byfactor " << (retExact ? 1 : 0) << " " << dy(maxD) << " " << dy(margin);
       for (float e : f) out.ops << " " << dy(e);
       out.ops << "\n";
@@ -345,6 +408,18 @@ struct Runner {
       else out.impl << "byfactor " << (retExact ? dy(ret) + " " : "") << widths(c) << "\n";
     }
     out.count(exact ? (retExact ? "byfactor_exact_with_ratio" : "byfactor_exact_widths_only") : "byfactor_inexact");
+    if (emitF) {
+      if (domByFactor(c0, f, maxD, margin)) {
+        out.ops << "byfactorF " << dy(maxD) << " " << dy(margin);
+        for (float e : f) out.ops << " " << dy(e);
+        out.ops << "\n";
+        if (threw) out.impl << res << " F\n";
+        else out.impl << "byfactor " << dy(ret) << " " << widths(c) << " F\n";
+        out.count("F_byfactor");
+        if (!(exact && retExact)) out.count("F_byfactor_inexact (some double/float operation rounds)");
+        if (!exact && c.cellWidth() != c0.cellWidth()) out.count("F_byfactor_inexact_widths_and_widths_changed");
+      } else out.count("F_byfactor_skipped_out_of_domain");
+    }
     // ---- oracle
     bool lengthOk = (int)f.size() == c0.nbCells();
     bool inDomain = lengthOk;
@@ -363,9 +438,12 @@ struct Runner {
     Avail av = availableArea(c0, margin);
     long long before = movableArea(c0), after = movableArea(c);
     bool changed = c.cellWidth() != c0.cellWidth();
+    // unconditional since fixes/c18-byfactor-wide-cells.diff: any width (also above 2^24, where the int -> float
+    // conversion of the width is inexact), any sign
     for (int i = 0; i < c0.nbCells(); ++i)
-      if (!c0.cellIsFixed()[i] && c0.cellWidth()[i] >= 0 && c.cellWidth()[i] < c0.cellWidth()[i])
-        out.fail(id, "movable cell " + std::to_string(i) + " became narrower (factors >= 1, no width cap)", input);
+      if (!c0.cellIsFixed()[i] && c.cellWidth()[i] < c0.cellWidth()[i])
+        out.fail(id, "movable cell " + std::to_string(i) + " became narrower (factors >= 1, no width cap): width " + std::to_string(c0.cellWidth()[i]) +
+                         " -> " + std::to_string(c.cellWidth()[i]), input);
     long double capHi = (long double)maxD * av.hi;
     long double bound = std::max<long double>(before, capHi);
     if ((long double)after > bound * (1 + 1e-6L) + 1e-6L)
@@ -403,6 +481,7 @@ struct Runner {
       for (float v : res) *outcome += " " + dy(v);
     }
     if (exact) {
+      ++exactEmitted;
       out.ops << "cellexp " << dy(fp) << " " << dy(pf);
       for (auto &rc : m) out.ops << " " << rc.first.minX << " " << rc.first.maxX << " " << rc.first.minY << " " << rc.first.maxY << " " << dy(rc.second);
       out.ops << "\n";
@@ -415,6 +494,24 @@ struct Runner {
       }
     }
     out.count(exact ? "cellexp_exact" : "cellexp_inexact");
+    if (emitF) {
+      bool finite = std::isfinite(fp) && std::isfinite(pf);
+      for (auto &rc : m) finite = finite && std::isfinite(rc.second);
+      if (finite) {
+        out.ops << "cellexpF " << dy(fp) << " " << dy(pf);
+        for (auto &rc : m) out.ops << " " << rc.first.minX << " " << rc.first.maxX << " " << rc.first.minY << " " << rc.first.maxY << " " << dy(rc.second);
+        out.ops << "\n";
+        if (threw) out.impl << ex << " F\n";
+        else {
+          std::ostringstream os;
+          os << "cellexpF";
+          for (float v : res) os << " " << dy(v);
+          out.impl << os.str() << "\n";
+        }
+        out.count("F_cellexp");
+        if (!exact) out.count("F_cellexp_inexact (some float/double operation rounds)");
+      }
+    }
     bool invalid = fp < 0.0f || pf < 1.0f;
     if (threw) {
       if (!invalid) out.fail(id, "computeCellExpansion threw on valid penalties", input);
@@ -498,8 +595,9 @@ struct Runner {
       // ... and a second fresh object on which the same call is made (metamorphic twin)
       Circuit twin = vhist::rebuild(s0);
       inputOverride = &input;
+      emitF = (j % 3 == 0);  // every third observation also goes to the float-exact model
       header(oid, c0);
-      auto opsPos = out.ops.tellp();
+      long long exact0 = exactEmitted;
       std::string got, fresh;
       if (kind == "rowarea") {
         double margin = 0;
@@ -542,7 +640,7 @@ struct Runner {
       } else {
         out.count("hist_obs_unknown");
       }
-      if (out.ops.tellp() != opsPos) out.count("hist_obs_" + kind + "_compared_with_model (replica shows no rounding)");
+      if (exactEmitted != exact0) out.count("hist_obs_" + kind + "_compared_with_model (replica shows no rounding)");
       got += " | state " + vc::circuitString(obj);
       fresh += " | state " + vc::circuitString(twin);
       if (got != fresh) {
@@ -674,6 +772,50 @@ static std::vector<Region> genRegions(vh::Rng &g, const Circuit &c, bool exact) 
   return m;
 }
 
+// full-mantissa values
+static double rndUnit(vh::Rng &g) { return (double)(g.next() >> 11) * 0x1p-53; }   // 53 random bits in [0,1)
+static float rndUnitF(vh::Rng &g) { return (float)(g.next() >> 40) * 0x1p-24f; }   // 24 random bits in [0,1)
+
+// Rounding stream: rows of one (arbitrary, mostly not a power of two) height, movable cells of 1-3 row heights or of an
+// unrelated height, a few fixed obstructions; magnitude class 0: small, 1: up to 1e5, 2: widths up to 2^28 (above 2^24 the
+// int -> float conversion of expandCellsByFactor is inexact; factors below 3 keep the product within the conversion guard), rows up to 2^29.
+static Circuit genRounding(vh::Rng &g, int cls, bool floatPath) {
+  int H = g.chance(1, 4) ? (int)pow2(g.range(0, 4)) : (int)g.range(1, 40);
+  long long wmax = cls == 0 ? 50 : (cls == 1 ? 100000 : (1ll << 28));
+  (void)floatPath;
+  long long rmax = cls == 0 ? 400 : (cls == 1 ? 1000000 : (1ll << 29));
+  std::vector<CellSpec> cs;
+  int nm = g.range(1, 8);
+  for (int i = 0; i < nm; ++i) {
+    CellSpec c;
+    c.w = (int)g.range(1, g.chance(1, 2) ? wmax : std::max<long long>(1, wmax / 64));
+    if (cls == 2 && g.chance(1, 6)) c.w = (int)(wmax - g.range(0, 3));
+    if (cls == 2 && g.chance(1, 6)) c.w = (1 << 24) + (int)g.range(-2, 3);  // around the last exactly convertible width
+    c.h = g.chance(3, 4) ? H * (int)g.range(1, 3) : (int)g.range(1, 60);
+    if (g.chance(1, 12)) c.w = 0;
+    if (g.chance(1, 20)) c.h = 0;
+    c.x = g.range(-5, 40); c.y = g.range(-5, 20); c.o = g.chance(1, 5) ? (CellOrientation)g.range(0, 7) : CellOrientation::N;
+    c.fixed = false; c.obs = g.chance(1, 2);
+    cs.push_back(c);
+  }
+  int nRows = g.range(1, 4);
+  std::vector<Row> rows;
+  int x0 = g.range(-8, 8), y0 = g.range(-8, 8);
+  for (int r = 0; r < nRows; ++r) {
+    int wdt = (int)g.range(1, g.chance(1, 2) ? rmax : std::max<long long>(1, rmax / 16));
+    rows.emplace_back(x0, x0 + wdt, y0 + r * H, y0 + (r + 1) * H, g.chance(1, 2) ? CellOrientation::N : CellOrientation::FS);
+  }
+  int nf = g.range(0, 2);
+  for (int i = 0; i < nf; ++i) {
+    CellSpec c;
+    c.fixed = true; c.obs = g.chance(3, 4);
+    c.w = (int)g.range(0, std::max<long long>(2, rmax / 8)); c.h = g.range(0, 2 * H); c.o = (CellOrientation)g.range(0, 7);
+    c.x = g.range(x0 - 2, x0 + (int)std::min<long long>(rmax, 1 << 20)); c.y = y0 + g.range(-1, nRows * H);
+    cs.insert(cs.begin() + g.range(0, cs.size()), c);
+  }
+  return makeCircuit(cs, rows);
+}
+
 int main(int argc, char **argv) {
   vh::Args a = vh::parseArgs(argc, argv);
   vh::Out out(a.out);
@@ -682,6 +824,9 @@ int main(int argc, char **argv) {
              "(expansion calls) or at least one cell intersects a congested region (computeCellExpansion); distinct by canonical text. "
              "Exact stream: dyadic instances on which a replica of the floating-point operation sequence shows no rounding "
              "(counts *_exact), compared with the rational model; every instance goes through the invariant oracle. "
+             "Float-exact stream (counters F_*): the same calls, dyadic or not, and the rounding stream r (full-mantissa targets, margins, "
+             "caps, factors, penalties, congestion values; widths up to 2^28) are compared exactly (all widths, returned ratio, every "
+             "expansion factor) with the binary64/binary32-exact model; F_*_inexact = at least one floating-point operation of the call rounds. "
              "Object-history stream: every observation of a history (mutators and observed calls interleaved on one Circuit object) "
              "is one more instance, compared in addition with the same call on a freshly rebuilt circuit of the same observable state";
   Runner r(out);
@@ -702,6 +847,27 @@ int main(int argc, char **argv) {
     }
   }
   long long n1 = a.thorough() ? 200000 : (a.search() ? 60000 : 20000);
+  // 0a. corpus witnesses of the float path of expandCellsByFactor, replayed first (corpus/C18/byfactor-wide-width.txt,
+  //     corpus/C18/factor-below-one.txt; Properties/C18.lean: legacy_byFactorF_wide_witness, byFactorF_below_one_witness);
+  //     both go through the oracle and the float-exact model like every other case
+  {
+    // width 2^24+1 with factor exactly 1.0f: (float)16777217 = 16777216; before fixes/c18-byfactor-wide-cells.diff the
+    // cell became narrower by 1
+    std::vector<CellSpec> wide = {{16777217, 1, 0, 0, CellOrientation::N, false, true}};
+    Circuit c2 = makeCircuit(wide, {Row(0, 1 << 26, 0, 1, CellOrientation::N)});
+    r.header("w3", c2);
+    Circuit t2 = c2;
+    r.byFactor("w3", c2, {1.0f}, 1.0, 0.0, &t2);
+    out.count(t2.cellWidth()[0] == 16777217 ? "witness_width_2^24+1_factor_1_keeps_its_width" : "witness_width_2^24+1_factor_1_NARROWER");
+    // factor 0.999f is accepted (threshold `e < 0.999f`) and makes a 1000-wide cell 999 wide: outside the property's
+    // domain (factor vectors >= 1), so no oracle demand
+    std::vector<CellSpec> one = {{1000, 1, 0, 0, CellOrientation::N, false, true}};
+    Circuit c1 = makeCircuit(one, {Row(0, 4000, 0, 1, CellOrientation::N)});
+    r.header("w2", c1);
+    Circuit t1 = c1;
+    r.byFactor("w2", c1, {0.999f}, 1.0, 0.0, &t1);
+    out.count(t1.cellWidth()[0] == 999 ? "witness_factor_0.999f_accepted_1000_becomes_999" : "witness_factor_0.999f_UNEXPECTED_RESULT");
+  }
   // 0. fixed witnesses of the cap overshoot of the unrepaired expandCellsByFactor (truncated expandedArea)
   {
     std::vector<CellSpec> one = {{10, 1, 0, 0, CellOrientation::N, false, true}};
@@ -720,6 +886,7 @@ int main(int argc, char **argv) {
     int kind = i % 4;
     std::string id = std::string("d") + std::to_string(i);
     ExactInst in = genExact(g, kind == 1 || kind == 2);
+    r.emitF = (i % 8 < 2);  // a quarter of the dyadic cases (both kinds) also go to the float-exact model
     r.header(id, in.c);
     r.rowArea(id, in.c, in.margin);
     if (kind == 0 || kind == 3) {
@@ -769,6 +936,7 @@ int main(int argc, char **argv) {
     o.scale = (i % 10 == 9) ? 1000 : 1;
     o.maxCells = 12;
     Circuit c = vc::genCircuit(g, o);
+    r.emitF = true;
     if (g.chance(1, 4) && c.nbCells() > 0) {  // zero-size movable cells
       std::vector<int> w = c.cellWidth(), h = c.cellHeight();
       int k = g.range(0, c.nbCells() - 1);
@@ -800,6 +968,46 @@ int main(int argc, char **argv) {
     } else {
       float fp = g.chance(1, 2) ? 0.0f : (float)(g.range(-2, 20) / 10.0), pf = g.chance(1, 2) ? 1.0f : (float)(g.range(8, 30) / 10.0);
       r.cellExpansion(id, c, genRegions(g, c, false), fp, pf);
+    }
+  }
+  // 4. rounding stream: full-mantissa arguments, compared exactly with the binary64/binary32-exact model (and oracle)
+  long long n4 = a.thorough() ? 200000 : (a.search() ? 60000 : 12000);
+  for (long long i = 0; i < n4; ++i) {
+    vh::Rng g = vh::Rng::forCase(a.seed, 4000000000ll + i);
+    std::string id = std::string("r") + std::to_string(i);
+    int kind = i % 3, cls = (int)((i / 3) % 3);
+    Circuit c = genRounding(g, cls, kind == 1);
+    r.emitF = true;
+    r.header(id, c);
+    double margin = g.chance(1, 4) ? 0.0 : rndUnit(g) * (double)g.range(1, 4);
+    if (cls == 2 && g.chance(1, 2)) margin = rndUnit(g) * 1e5;
+    r.rowArea(id, c, margin);
+    out.count("rounding_stream_class_" + std::to_string(cls));
+    if (kind == 0) {
+      double target = rndUnit(g);
+      if (g.chance(1, 3)) {  // just above / below the current density
+        long long A = movableArea(c), R = c.computeRowPlacementArea(margin);
+        if (A > 0 && R > 0) target = (double)A / (double)R * (1.0 + (rndUnit(g) - 0.25) * (g.chance(1, 2) ? 1e-15 : 4.0));
+      }
+      if (!(target > 0)) target = 0.5;
+      double cap = g.chance(1, 3) ? 1.0 : rndUnit(g) * 1.99;
+      r.toDensity(id, c, target, margin, cap);
+    } else if (kind == 1) {
+      int n = c.nbCells();
+      std::vector<float> f(n);
+      for (int k = 0; k < n; ++k) f[k] = g.chance(1, 5) ? 1.0f : 1.0f + rndUnitF(g) * (g.chance(1, 2) ? 1.99f : 0.01f);
+      if (g.chance(1, 15) && n > 0) f[g.range(0, n - 1)] = 0.999f + rndUnitF(g) * 0.001f;  // accepted although below 1
+      if (g.chance(1, 40) && n > 0) f[g.range(0, n - 1)] = 0.999f - rndUnitF(g) * 0.001f;  // mostly rejected
+      if (g.chance(1, 60)) f.push_back(1.0f);
+      double maxD = g.chance(1, 4) ? 1.0 : rndUnit(g) * 1.2;
+      r.byFactor(id, c, f, maxD, margin);
+    } else {
+      float fp = g.chance(1, 3) ? 0.0f : rndUnitF(g) * 2.0f, pf = g.chance(1, 3) ? 1.0f : 1.0f + rndUnitF(g) * 2.0f;
+      if (g.chance(1, 30)) fp = -rndUnitF(g);
+      if (g.chance(1, 30)) pf = rndUnitF(g);
+      std::vector<Region> m = genRegions(g, c, false);
+      for (auto &rc : m) if (!g.chance(1, 6)) rc.second = g.chance(1, 8) ? 1.0f + rndUnitF(g) * 0x1p-20f : rndUnitF(g) * 4.0f;
+      r.cellExpansion(id, c, m, fp, pf);
     }
   }
   // 3. object histories: mutators and observations interleaved on one Circuit object
